@@ -398,6 +398,8 @@ type Program struct {
 	Sizes    types.Sizes
 	initAllowed map[*ssa.Package]bool
 	Stubs    map[string]*ssa.Function // environment function name -> harness model
+	Lazy     *LazySpec
+	byName   map[string]*ssa.Function
 }
 
 func (pr *Program) FindFunc(pkgPath, name string) *ssa.Function {
